@@ -260,10 +260,11 @@ class Ctx:
     rng: random.Random
     t0: float
     notes: List[str] = field(default_factory=list)
+    escalate: bool = False
 
     @property
     def thorough(self):
-        return self.tier == 'thorough'
+        return self.tier == 'thorough' or self.escalate
 
     def np_rng(self, salt=0):
         import numpy as np
@@ -318,3 +319,27 @@ def source_fingerprint(files: List[str]) -> str:
         if p.exists():
             h.update(p.read_bytes())
     return h.hexdigest()[:16]
+
+
+FINGERPRINTS = VERIF / 'fingerprints.json'
+
+
+def property_anchor_files(prop: str) -> List[str]:
+    files: List[str] = []
+    for line in (VERIF / 'properties.jsonl').read_text().splitlines():
+        d = json.loads(line)
+        if d['id'] == prop:
+            files = [f for f in d['anchors']['files'] if f.endswith(('.py', '.json', '.js'))]
+    extra = {'C05': ['panqec/decoders/belief_propagation/mbp_decoder.py', 'panqec/decoders/xcube/_xcube_matching_decoder.py'],
+             'C20': ['panqec/decoders/base/_base_decoder.py']}
+    return sorted(set(files + extra.get(prop, [])))
+
+
+def property_fingerprint(prop: str) -> str:
+    return source_fingerprint(property_anchor_files(prop))
+
+
+def recorded_fingerprints() -> Dict[str, str]:
+    if FINGERPRINTS.exists():
+        return json.loads(FINGERPRINTS.read_text())
+    return {}
